@@ -215,7 +215,7 @@ CHECKS = {
        "(C01_pair_qos2_exactly_once_across_loss) and QoS 1 AT LEAST ONCE: every published QoS 1 message has been notified and nothing is "
        "stored any more (C01_pair_qos1_at_least_once_across_loss); the same with the server publishing to the client "
        "(C01_pair_server_to_client_across_loss); (2) any sequence of exchanges with identifier reuse, v3.1.1 and v5.0, the v5.0 Receive "
-       "Maximum accounts back at zero after each (C01_pair_sequence_exactly_once, ..._v5); (3) single QoS 1/2 exchanges from every admissible "
+       "Maximum accounts back at zero after each (C01_pair_sequence_exactly_once, ..._v5); (3) single QoS 0/1/2 exchanges from every admissible "
        "pair of states, both versions (C01_pair_qos1_completes, ...), all tied to step by C01_send_call_is_send_publish / "
        "C01_recv_call_is_deliver (..._v5); (4) the per-endpoint facts: fragmentation independence (C09), a transport loss leaves nothing of the "
        "cut connection behind and keeps a persistent session (C10), unmatched acknowledgements are protocol errors (C06). NOT proved "
